@@ -49,6 +49,9 @@ def replay(case) -> dict:
     lim = tuple(x / 100.0 for x in cfg["lim"])
     tmpl = template_at(shape, (0, 0, 0))
     sub = template_at(shape, d)
+    if cfg.get("bg"):
+        tmpl = tmpl + float(cfg["bg"])
+        sub = sub + float(cfg["bg"])
     broadband = cfg["model"] == "FSC" and all(x % 100 == 0 for x in cfg["d"])
     if broadband:
         # FSC averages over ALL shells: "score close to 1" needs power in every shell, so for integer
@@ -76,7 +79,7 @@ def replay(case) -> dict:
             quat = Rotation.from_quat([1, 1, 0, 3]).as_quat()
     model = _models()[cfg["model"]](tmpl, mask, **kw)
     gap = max(case["gap"]) / 100.0
-    desc = dict(model=cfg["model"], mask=cfg["mask"], cutoff=cfg["cutoff"], tilt=cfg["tilt"], box=list(shape), lim=cfg["lim"], d=cfg["d"],
+    desc = dict(model=cfg["model"], mask=cfg["mask"], cutoff=cfg["cutoff"], tilt=cfg["tilt"], bg=cfg.get("bg", 0), box=list(shape), lim=cfg["lim"], d=cfg["d"],
                 at_edge=any(abs(a) == b for a, b in zip(cfg["d"], cfg["lim"])), reach_gap=gap, gap_exceeds_tol=gap * 100 > case["tol"])
     fails = []
     res = engine.api(model.align, sub, lim, quat, np.zeros(3))
@@ -94,7 +97,7 @@ def replay(case) -> dict:
 
 def _stratum(c):
     g = c["cfg"]
-    return (g["model"], g["mask"], g["cutoff"], g["tilt"], json.dumps(g["box"]), json.dumps(g["lim"]), max(c["gap"]) > c["tol"])
+    return (g["model"], g["mask"], g["cutoff"], g["tilt"], g.get("bg", 0), json.dumps(g["box"]), json.dumps(g["lim"]), max(c["gap"]) > c["tol"])
 
 
 def run(rep: engine.Report, tier: str, seed: int):
@@ -102,7 +105,7 @@ def run(rep: engine.Report, tier: str, seed: int):
     cases = mc.emitted
     if not cases:
         raise engine.MachineryError("MC_C04 emitted nothing")
-    budget = 1800 if tier == "quick" else len(cases)
+    budget = 2000 if tier == "quick" else len(cases)
     sel = engine.stratified_sample(cases, _stratum, budget, seed)
     rep.exhaustive = len(sel) == len(cases)
     results = engine.parallel_replay("harness.props.c04", "replay", sel)
@@ -130,7 +133,7 @@ def replay_file(path: str) -> int:
 
 
 def selftest() -> int:
-    case = dict(cfg=dict(model="ZNCC", lim=[200, 200, 200], d=[100, -100, 0], box=[12, 12, 12], mask="none", cutoff=0, tilt="none"), tol=10, gap=[0, 0, 0])
+    case = dict(cfg=dict(model="ZNCC", lim=[200, 200, 200], d=[100, -100, 0], box=[12, 12, 12], mask="none", cutoff=0, tilt="none", bg=0), tol=10, gap=[0, 0, 0])
     good = replay(case)
     bad = json.loads(json.dumps(case))
     bad["cfg"]["d"] = [100, -100, 50]
